@@ -46,6 +46,7 @@ func init() {
 		Build: func(w *World) {
 			pr := BuildProto(w, ProtoOpt{Peers: 2 + w.T.Choose(2, "peers"), MinServers: 2, ClientFeats: true,
 				ServerTypes: []model.FeatureTypeType{model.FeatureTypeTypeLoadControl, model.FeatureTypeTypeDeviceConfiguration, model.FeatureTypeTypeSetpoint}})
+			pr.L.QuiesceOwnTraffic = true
 			a := &actor{w: w, pr: pr, binds: &regScript{w: w, pr: pr, kind: "bind"}, subs: &regScript{w: w, pr: pr, kind: "sub"}}
 			d := &c10Data{a: a, ev: w.CollectEvents(), drops: map[string][]uint64{}}
 			w.FaultRate = map[string]int{"conn.drop": 8, "peer.entity_remove": 8}
